@@ -322,14 +322,13 @@ def _trim(o, limit=600):
 
 
 def load_findings(pid):
-    out = []
-    for path in (os.path.join(VERIF, "known_findings.json"),
-                 os.path.join(VERIF, "findings", f"{pid}.json")):
-        if os.path.exists(path):
-            with open(path) as f:
-                data = json.load(f)
-            out += [e for e in data.get("findings", []) if e.get("property") == pid]
-    return out
+    """Open findings of a property, from the committed known-findings file."""
+    path = os.path.join(VERIF, "known_findings.json")
+    if not os.path.exists(path):
+        return []
+    with open(path) as f:
+        data = json.load(f)
+    return [e for e in data.get("findings", []) if e.get("property") == pid]
 
 
 def write_replay(pid, payload):
